@@ -39,10 +39,13 @@ type MapLit struct {
 	Vals []Expr
 }
 
-// Param is a function parameter with an optional literal default.
+// Param is a function parameter with an optional default: a literal (Def) or,
+// if DefE is set, a side-effect free expression over names of the scope the
+// function is declared in.
 type Param struct {
 	Name string
 	Def  *Lit
+	DefE Expr
 }
 
 // FuncLit is a function literal (Name != "" only inside a FuncDecl).
@@ -119,11 +122,17 @@ type ForGuard struct {
 	Body []Stmt
 }
 
-// Try is try { } finally { } (no errors are ever raised by generated programs).
+// Try is try { } [except e { }] [otherwise { }] finally { }. No errors are ever
+// raised by generated programs: an except clause never runs, the otherwise
+// block runs whenever the try block ended normally.
 type Try struct {
 	ID, FinID int
 	Body      []Stmt
 	Finally   []Stmt
+	Except    bool // print a catch-all except clause (its marker must never appear)
+	HasOth    bool
+	OthID     int
+	Otherwise []Stmt
 }
 
 // Mutex is a mutex block.
@@ -272,7 +281,10 @@ func (p *printer) funcLit(f *FuncLit) {
 			p.b.WriteString(", ")
 		}
 		p.b.WriteString(pa.Name)
-		if pa.Def != nil {
+		if pa.DefE != nil {
+			p.b.WriteString("=")
+			p.expr(pa.DefE)
+		} else if pa.Def != nil {
 			p.b.WriteString("=" + litSrc(pa.Def))
 		}
 	}
@@ -344,6 +356,14 @@ func (p *printer) stmt(s Stmt) {
 	case *Try:
 		p.b.WriteString("try ")
 		p.block(x.Body)
+		if x.Except {
+			p.b.WriteString(" except e ")
+			p.block([]Stmt{&Rec{Tag: fmt.Sprintf("EXC%d", x.ID)}})
+		}
+		if x.HasOth {
+			p.b.WriteString(" otherwise ")
+			p.block(x.Otherwise)
+		}
 		p.b.WriteString(" finally ")
 		p.block(x.Finally)
 	case *Mutex:
